@@ -39,7 +39,7 @@ def parse_output(out):
         t = ln.split(" ", 1)
         k = t[0]
         if k == "B":
-            cur = {"event": int(t[1]), "R": [], "T": {}, "S": [], "status": None, "C": None, "X": None}
+            cur = {"event": int(t[1]), "R": [], "T": {}, "S": [], "status": None, "C": None, "X": None, "Q": 0}
             evs.append(cur)
         elif cur is None:
             continue
@@ -50,6 +50,8 @@ def parse_output(out):
             cur["T"][int(tr)] = (int(n), h)
         elif k == "S":
             cur["S"].append(t[1])
+        elif k == "Q":
+            cur["Q"] = int(t[1])
         elif k == "C":
             cur["C"] = tuple(int(x) for x in t[1].split())
         elif k == "F":
@@ -140,11 +142,12 @@ def run(ctx):
         ok, _ = ctx.coq_build(["C06/ResetComplete.vo"])
         if ok:
             try:
-                unclassified, fs, cur, slotu = ctx.coq_eval("oblig", PRE, ["unclassified", "failed_shapes", "hand_lists_current_b", "slot_ctor_unreviewed"])
+                unclassified, fs, cur, slotu, dirty = ctx.coq_eval("oblig", PRE, ["unclassified", "failed_shapes", "hand_lists_current_b", "slot_ctor_unreviewed", "errored_path_dirty"])
                 ctx.broken_proof["unclassified_state_fields"] = unclassified
                 ctx.broken_proof["failed_shapes"] = fs
                 ctx.broken_proof["hand_lists_current"] = cur
                 ctx.broken_proof["slot_constructions_unreviewed"] = slotu
+                ctx.broken_proof["errored_path_not_cleared"] = dirty
             except Exception as ex:    # keep going: the replays below still run
                 ctx.notes.append("could not evaluate obligations: %s" % ex)
 
@@ -165,11 +168,11 @@ def run(ctx):
         jobs = []      # (kind, cfg, script)
         pools = {}
         for problem, slots in combos:
-            pool = sorted(rng.sample(range(1, 400), n_events))
+            # ordinary events (about a quarter of their primaries fail to initialise) plus events
+            # made only of failing primaries (ids that are multiples of 7): the latter leave their
+            # energy as deposition in slots that nothing re-uses before the next event
+            pool = sorted(set(rng.sample(range(1, 400), n_events)) | set(rng.sample(range(7, 400, 7), 2 if quick else 4)))
             pools[(problem, slots)] = pool
-            for e in pool:
-                ab = mock_abort(e) if problem == "mock" else -1
-                jobs.append(("baseline", base_cfg(problem, slots), [(e, nprim(problem, e), ab)]))
 
         def rand_script(problem, pool, with_abort):
             k = rng.choice([1, 2, 2, 3])
@@ -204,6 +207,16 @@ def run(ctx):
                        "checker": 0 if problem == "mock" else ck, "warmup": wu}
                 jobs.append(("config", cfg, rand_script(problem, pool, rng.random() < 0.5)))
 
+        # baselines: EVERY (event, size, abort step) that occurs in some script, alone on a fresh
+        # state with the plain configuration (aborted events are compared with a fresh run
+        # aborted at the same step, so their killed / errored / unfinished tracks count too)
+        needed = []
+        for kind, cfg, script in jobs:
+            for ev_ in script:
+                k = (cfg["problem"], cfg["slots"]) + tuple(ev_)
+                if k not in needed:
+                    needed.append(k)
+        jobs = [("baseline", base_cfg(k[0], k[1]), [k[2:]]) for k in needed] + jobs
         ctx.log("running %d harness processes" % len(jobs))
         with ThreadPoolExecutor(max_workers=max(2, min(12, vlib.NCPU - 2))) as ex:
             results = list(ex.map(lambda j: R.run(j[1], j[2]), jobs))
@@ -221,10 +234,9 @@ def run(ctx):
             if kind != "baseline":
                 continue
             evs = parse_output(out)
-            e = script[0][0]
             if rc != 0 or len(evs) != 1 or evs[0]["X"]:
                 raise vlib.BuildError("baseline replay failed (rc=%d) for %r %r" % (rc, cfg, script), out[-2000:])
-            baselines[(cfg["problem"], cfg["slots"], e)] = evs[0]
+            baselines[(cfg["problem"], cfg["slots"]) + tuple(script[0])] = evs[0]
             ctx.count("baseline:%s" % cfg["problem"])
 
         compared = 0
@@ -239,8 +251,8 @@ def run(ctx):
                        dict(label, rc=rc, output_tail=out[-1500:]))
                 continue
             for pos, (ev, (e, npr, ab)) in enumerate(zip(evs, script)):
-                key = (cfg["problem"], cfg["slots"], e)
-                base = baselines.get(key)
+                key = (cfg["problem"], cfg["slots"], e, npr, ab)
+                base = baselines[key]
                 hist = script[:pos]
                 ntr = len(ev["T"])
                 if ev["status"] == "done":
@@ -248,21 +260,18 @@ def run(ctx):
                     if ev["C"] != (0, cfg["slots"], 0, 0):
                         report("end-state", "completed event leaves counters/status (initializers, vacancies, secondaries, non-inactive) = %r" % (ev["C"],),
                                dict(label, event=e, position=pos))
-                if base is None or npr != nprim(cfg["problem"], e):
-                    continue        # filler event (aborted one with its own size)
                 if ab >= 0 and cfg["problem"] != "mock":
-                    # aborted event: its StepperResult prefix must match the full run
-                    d = first_diff(ev["R"], base["R"][:len(ev["R"])])
-                    if d:
-                        report("replay", "StepperResult sequence of an (aborted) event differs from the fresh run",
-                               dict(label, event=e, position=pos, step=d[0], got=d[1], fresh=d[2]))
-                    continue
+                    ctx.count("aborted-event-compared")
                 compared += 1
                 nontriv = (pos > 0 or cfg != base_cfg(cfg["problem"], cfg["slots"])) and ntr > 0
                 ctx.case((cfg["problem"], cfg["slots"], e, cfg["order"], cfg["timing"], cfg["checker"], cfg["warmup"], hist), nontrivial=nontriv)
                 ctx.count("order:%s" % cfg["order"])
                 ctx.count("problem:%s" % cfg["problem"])
                 ctx.count("history-len:%d" % pos)
+                if ev["Q"]:
+                    ctx.count("event-with-failed-initialisation")
+                    if any(baselines[(cfg["problem"], cfg["slots"]) + tuple(h)]["Q"] for h in hist):
+                        ctx.count("failed-initialisation-after-failed-initialisation")
                 if any(s[2] >= 0 for s in hist) and cfg["problem"] != "mock":
                     ctx.count("after-aborted-event+reset")
                 ctx.sample({"config": cfg, "script": label["script"], "event": e, "tracks": ntr,
